@@ -41,7 +41,7 @@ theorem window_of_checks {h ws we : Nat} {st : Settings} (hn : noWrap h st = tru
   exact ⟨h1, h2, h3⟩
 
 /-- the clause list follows from the checked facts -/
-theorem contractClauses_of_facts {fc : Rev} {h base locked : Nat} {st : Settings} {vh mh void : Out} {x y z w : Out}
+theorem contractClauses_of_facts {fc : Rev} {h base locked : Nat} {st : Settings} {vh mh void : Out} {x y : Out}
     {r1 r2 : List Out}
     (h1 : uadd h st.windowSize ≤ fc.wStart) (h2 : fc.wStart ≤ uadd h st.maxDuration)
     (h3 : uadd fc.wStart st.windowSize ≤ fc.wEnd)
@@ -366,7 +366,7 @@ theorem renewal3_panics_expected_burn :
     validateRenewal3 false exExisting exRenewal 10 (C128 - 1) 1 1000 exSettings = .panic .renExpectedBurn := by
   decide +kernel
 theorem renewal3_panics_min_valid_payout :
-    validateRenewal3 false exExisting { exRenewal with valid := [⟨1, 9⟩, ⟨2, C128 - 1⟩], missed := [⟨1, 9⟩, ⟨2, 5⟩, ⟨0, C128 - 6⟩] }
+    validateRenewal3 false exExisting { exRenewal with valid := [⟨1, 9⟩, ⟨2, C128 - 1⟩], missed := [⟨1, 9⟩, ⟨2, 200⟩, ⟨0, C128 - 201⟩] }
       10 (C128 - 100) 0 1000 exSettings = .panic .renMinValidPayout := by
   decide +kernel
 
@@ -386,5 +386,238 @@ theorem renewBase_ok {fx : Bool} {flat price coll x y : Nat} {e r : Rev}
     res_ok' at h
     obtain ⟨rfl, rfl⟩ := h
     simp [hgt]
+
+theorem cmulF_noPanic {fx : Bool} {s : Site} {t : Tag} {a b : Nat} (h : fx = true ∨ a * b < C128) :
+    NoPanic (cmulF fx s t a b) := by
+  intro s' hp; have := cmulF_panic_iff.mp hp
+  rcases h with h | h
+  · simp [h] at this
+  · omega
+
+/-- inputs on which the CURRENT base cost arithmetic cannot overflow -/
+def BaseSafe (flat price coll : Nat) (e r : Rev) : Prop :=
+  r.wEnd > e.wEnd →
+    price * r.filesize < C128 ∧ price * r.filesize * (r.wEnd - e.wEnd) < C128 ∧
+    flat + price * r.filesize * (r.wEnd - e.wEnd) < C128 ∧
+    coll * r.filesize < C128 ∧ coll * r.filesize * (r.wEnd - e.wEnd) < C128
+
+theorem renewBase_noPanic {fx : Bool} {flat price coll : Nat} {e r : Rev}
+    (H : fx = true ∨ BaseSafe flat price coll e r) : NoPanic (renewBase fx flat price coll e r) := by
+  unfold renewBase
+  split
+  · rename_i hgt
+    have H' := H.imp id (fun h => h hgt)
+    refine NoPanic.bind (cmulF_noPanic (H'.imp id (·.1))) fun a ha => ?_
+    res_ok' at ha; obtain ⟨_, rfl⟩ := ha
+    refine NoPanic.bind (cmulF_noPanic (H'.imp id (·.2.1))) fun b hb => ?_
+    res_ok' at hb; obtain ⟨_, rfl⟩ := hb
+    refine NoPanic.bind (caddF_noPanic (H'.imp id (·.2.2.1))) fun _ _ => ?_
+    refine NoPanic.bind (cmulF_noPanic (H'.imp id (·.2.2.2.1))) fun c hc => ?_
+    res_ok' at hc; obtain ⟨_, rfl⟩ := hc
+    refine NoPanic.bind (cmulF_noPanic (H'.imp id (·.2.2.2.2))) fun _ _ => ?_
+    exact NoPanic.pure _
+  · exact NoPanic.pure _
+
+/-- raw facts of an accepted RHP2 renewal validation -/
+theorem validateRenewal2_ok {fx : Bool} {e r : Rev} {expUH base risk h a b c : Nat} {st : Settings}
+    (hh : validateRenewal2 fx e r expUH base risk h st = .ok (a, b, c)) :
+    ∃ vh mh void, ShapeFacts e r expUH h st vh mh void ∧ mh.val ≤ vh.val ∧ vh.val - mh.val ≤ base + risk ∧
+      void.val = vh.val - mh.val ∧ base ≤ vh.val ∧ vh.val - base ≤ st.maxCollateral ∧
+      a = base ∧ b = (vh.val - mh.val) - base ∧ c = vh.val - base := by
+  unfold validateRenewal2 at hh
+  res_ok' at hh
+  obtain ⟨⟨vh, mh, void⟩, hsh, eb, ⟨_, rfl⟩, hle, hburn, hvoid, hbase, hmc, rfl, rfl, rfl⟩ := hh
+  exact ⟨vh, mh, void, renewalShape_ok hsh, hle, hburn, hvoid, hbase, hmc, rfl, rfl, rfl⟩
+
+theorem validateRenewal3_ok {fx : Bool} {e r : Rev} {expUH base risk h a b : Nat} {st : Settings}
+    (hh : validateRenewal3 fx e r expUH base risk h st = .ok (a, b)) :
+    ∃ vh mh void, ShapeFacts e r expUH h st vh mh void ∧ mh.val ≤ vh.val ∧ vh.val - mh.val ≤ base + risk ∧
+      void.val = vh.val - mh.val ∧ st.contractPrice + base ≤ vh.val ∧
+      vh.val - (st.contractPrice + base) ≤ st.maxCollateral ∧
+      a = (vh.val - mh.val) - base ∧ b = vh.val - (st.contractPrice + base) := by
+  unfold validateRenewal3 at hh
+  res_ok' at hh
+  obtain ⟨⟨vh, mh, void⟩, hsh, eb, ⟨_, rfl⟩, hle, hburn, hvoid, mvp, ⟨_, rfl⟩, hbase, hmc, x, ⟨_, rfl⟩, mmp, ⟨_, rfl⟩,
+    hmiss, rfl, rfl⟩ := hh
+  exact ⟨vh, mh, void, renewalShape_ok hsh, hle, hburn, hvoid, hbase, hmc, rfl, rfl⟩
+
+/-- **C12 (rpcFormContract).** what the handler records for an accepted formation is the closed form
+`formRecorded` (locked = validHost − contractPrice, RPC revenue = contractPrice), the contract
+satisfies every clause and its proof window starts before the v2 hard fork. -/
+theorem rpcForm2_accept_safe {rh expUH h : Nat} {fc : Rev} {st : Settings} {rec : Recorded}
+    (hh : rpcForm2 rh fc expUH h st = .ok rec) :
+    fc.wStart < rh ∧ (∀ cl ∈ contractClauses fc h st 0 rec.locked, cl.2 = true) ∧ formRecorded fc st = some rec := by
+  unfold rpcForm2 at hh
+  res_ok' at hh
+  obtain ⟨hrh, c, hc, rfl⟩ := hh
+  have := formation_accept_safe hc
+  exact ⟨hrh, this.1, this.2.1⟩
+
+theorem rpcForm2_no_panic (rh expUH h : Nat) (fc : Rev) (st : Settings) : NoPanic (rpcForm2 rh fc expUH h st) := by
+  unfold rpcForm2
+  refine NoPanic.bind (check_noPanic _ _) fun _ _ => ?_
+  refine NoPanic.bind (formation_no_panic _ _ _ _) fun _ _ => ?_
+  exact NoPanic.pure _
+
+/-- **C12 (rpcRenewAndClearContract).** For ALL existing revisions, renewals, clearing values, heights and
+settings: if the RHP2 handler reaches `RenewContract`, the renewal satisfies every clause with
+base storage revenue `StoragePrice·filesize·extension`, and the recorded locked collateral, risked
+collateral and usage are exactly the closed form `renew2Recorded`. -/
+theorem rpcRenew2_accept_safe {fx : Bool} {rh expUH h : Nat} {e r : Rev} {fv : List Nat} {st : Settings} {rec : Recorded}
+    (hh : rpcRenew2 fx rh e r fv expUH h st = .ok rec) :
+    r.wStart < rh ∧
+    (∀ cl ∈ contractClauses r h st (baseCost st.storagePrice e r) rec.locked, cl.2 = true) ∧
+    renew2Recorded e r fv st = some rec ∧
+    r.filesize = e.filesize ∧ r.root = e.root ∧ e.wEnd ≤ r.wEnd := by
+  unfold rpcRenew2 at hh
+  res_ok' at hh
+  obtain ⟨hrh, clearing, hclr, evr, _, fp, hfp, ⟨b1, b2⟩, hbase, ⟨a, b, c⟩, hval, storage, ⟨hsub, rfl⟩, rfl⟩ := hh
+  obtain ⟨rfl, rfl⟩ := renewBase_ok hbase
+  obtain ⟨vh, mh, void, sf, hle, hburn, hvoid, hb, hmc, rfl, rfl, rfl⟩ := validateRenewal2_ok hval
+  obtain ⟨x, y, r1, r2, hv, hm⟩ := sf.shape
+  obtain ⟨cvh, fvh, hcvh, hfvh, rfl, _⟩ := validateClearing_returns hfp
+  have hc := clearingRevision_ok hclr
+  refine ⟨hrh, contractClauses_of_facts sf.w1 sf.w2 sf.w3 hv hm sf.a1 sf.a2 sf.a3 hmc hb, ?_, sf.fs, sf.root, sf.wEnd⟩
+  -- closed form
+  have hfv : ∃ f0 rest, fv = f0 :: fvh :: rest := by
+    have h6 := hc.2.2.2.2.2.1
+    cases hcv : clearing.valid with
+    | nil => rw [hcv] at hfvh; simp [hostVal] at hfvh
+    | cons o0 t =>
+      cases t with
+      | nil => rw [hcv] at hfvh; simp [hostVal] at hfvh
+      | cons o1 t' =>
+        rw [hcv] at hfvh h6
+        simp [hostVal] at hfvh
+        exact ⟨o0.val, vals t', by rw [← h6, ← hfvh]; simp⟩
+  obtain ⟨f0, rest, rfl⟩ := hfv
+  simp only [renew2Recorded, hv, hm, hostVal_cons, hcvh]
+  congr 1
+  simp only [Recorded.mk.injEq]
+  refine ⟨by trivial, by trivial, by omega, by trivial, by trivial⟩
+
+theorem rpcRenew2_window_partial {fx : Bool} {rh expUH h : Nat} {e r : Rev} {fv : List Nat} {st : Settings} {rec : Recorded}
+    (hh : rpcRenew2 fx rh e r fv expUH h st = .ok rec) (hn : h + st.maxDuration + st.windowSize < U64) :
+    h + st.windowSize ≤ r.wStart ∧ r.wStart ≤ h + st.maxDuration ∧ r.wStart + st.windowSize ≤ r.wEnd := by
+  unfold rpcRenew2 at hh
+  res_ok' at hh
+  obtain ⟨hrh, clearing, hclr, evr, _, fp, hfp, ⟨b1, b2⟩, hbase, ⟨a, b, c⟩, hval, _⟩ := hh
+  exact renewal2_window_partial hval hn
+
+/-- **C12 (handleRPCRenew).** the same for RHP3: base revenue `RenewContractCost + WriteStoreCost·filesize·extension`
+(recorded as storage revenue), locked = validHost − (contractPrice + base). -/
+theorem rpcRenew3_accept_safe {fx : Bool} {rh expUH h : Nat} {e k r : Rev} {st : Settings} {rec : Recorded}
+    (hh : rpcRenew3 fx rh e k r expUH h st = .ok rec) :
+    r.wStart < rh ∧
+    (∀ cl ∈ contractClauses r h st (st.renewCost + baseCost st.storagePrice e r) rec.locked, cl.2 = true) ∧
+    renew3Recorded e k r st = some rec ∧
+    r.filesize = e.filesize ∧ r.root = e.root ∧ e.wEnd ≤ r.wEnd := by
+  unfold rpcRenew3 at hh
+  res_ok' at hh
+  obtain ⟨hrh, fp, hfp, ⟨b1, b2⟩, hbase, ⟨a, b⟩, hval, rfl⟩ := hh
+  obtain ⟨rfl, rfl⟩ := renewBase_ok hbase
+  obtain ⟨vh, mh, void, sf, hle, hburn, hvoid, hb, hmc, rfl, rfl⟩ := validateRenewal3_ok hval
+  obtain ⟨x, y, r1, r2, hv, hm⟩ := sf.shape
+  obtain ⟨cvh, fvh, hcvh, hfvh, rfl, _⟩ := validateClearing_returns hfp
+  refine ⟨hrh, contractClauses_of_facts sf.w1 sf.w2 sf.w3 hv hm sf.a1 sf.a2 sf.a3 hmc hb, ?_, sf.fs, sf.root, sf.wEnd⟩
+  simp only [renew3Recorded, hv, hm, hostVal_cons, hcvh, hfvh]
+
+theorem rpcRenew3_window_partial {fx : Bool} {rh expUH h : Nat} {e k r : Rev} {st : Settings} {rec : Recorded}
+    (hh : rpcRenew3 fx rh e k r expUH h st = .ok rec) (hn : h + st.maxDuration + st.windowSize < U64) :
+    h + st.windowSize ≤ r.wStart ∧ r.wStart ≤ h + st.maxDuration ∧ r.wStart + st.windowSize ≤ r.wEnd := by
+  unfold rpcRenew3 at hh
+  res_ok' at hh
+  obtain ⟨hrh, fp, hfp, ⟨b1, b2⟩, hbase, ⟨a, b⟩, hval, _⟩ := hh
+  exact renewal3_window_partial hval hn
+
+/-- the clearing revision accepted on the RHP3 path satisfies the clearing clauses of C07 -/
+theorem rpcRenew3_clearing_safe {fx : Bool} {rh expUH h : Nat} {e k r : Rev} {st : Settings} {rec : Recorded}
+    (hh : rpcRenew3 fx rh e k r expUH h st = .ok rec) (hU : e.revNo ≤ maxRev)
+    (hwf : fx = false → e.valid.length = 2 ∧ e.revNo ≠ maxRev) :
+    ∀ c ∈ clearingClauses e k 0, c.2 = true := by
+  unfold rpcRenew3 at hh
+  res_ok' at hh
+  obtain ⟨hrh, fp, hfp, _⟩ := hh
+  exact validateClearing_accept_safe hfp hU hwf
+
+/-! no_panic of the handler paths -/
+
+/-- `he`: the host's own revision has a renter output (every contract the host holds was admitted by
+`validateContractFormation` / `validateContractRenewal`: exactly two valid outputs). -/
+theorem rpcRenew2_noPanic {fx : Bool} {rh expUH h : Nat} {e r : Rev} {fv : List Nat} {st : Settings}
+    (he : 0 < e.valid.length)
+    (H : fx = true ∨ (2 ≤ e.valid.length ∧ BaseSafe st.contractPrice st.storagePrice st.collateral e r ∧
+      st.contractPrice + baseCost st.storagePrice e r + baseCost st.collateral e r < C128)) :
+    NoPanic (rpcRenew2 fx rh e r fv expUH h st) := by
+  unfold rpcRenew2
+  refine NoPanic.bind (check_noPanic _ _) fun _ _ => ?_
+  refine NoPanic.bind (clearingRevision_no_panic _ _) fun _ _ => ?_
+  refine NoPanic.bind (out0_noPanic he) fun _ _ => ?_
+  refine NoPanic.bind (validateClearing_noPanic (H.imp id (·.1))) fun _ _ => ?_
+  refine NoPanic.bind (renewBase_noPanic (H.imp id (·.2.1))) fun ⟨b1, b2⟩ hb => ?_
+  obtain ⟨rfl, rfl⟩ := renewBase_ok hb
+  refine NoPanic.bind (validateRenewal2_noPanic (H.imp id (·.2.2))) fun ⟨a, b, c⟩ hv => ?_
+  obtain ⟨vh, mh, void, sf, hle, hburn, hvoid, hbb, hmc, rfl, rfl, rfl⟩ := validateRenewal2_ok hv
+  refine NoPanic.bind ?_ fun _ _ => NoPanic.pure _
+  intro s hs
+  have := csub_panic_iff.mp hs
+  omega
+
+theorem rpcRenew3_noPanic {fx : Bool} {rh expUH h : Nat} {e k r : Rev} {st : Settings}
+    (hr : ∀ o ∈ r.valid, o.val < C128)
+    (H : fx = true ∨ (2 ≤ e.valid.length ∧ BaseSafe st.renewCost st.storagePrice st.collateral e r ∧
+      st.renewCost + baseCost st.storagePrice e r + baseCost st.collateral e r < C128 ∧
+      st.contractPrice + (st.renewCost + baseCost st.storagePrice e r) < C128)) :
+    NoPanic (rpcRenew3 fx rh e k r expUH h st) := by
+  unfold rpcRenew3
+  refine NoPanic.bind (check_noPanic _ _) fun _ _ => ?_
+  refine NoPanic.bind (validateClearing_noPanic (H.imp id (·.1))) fun _ _ => ?_
+  refine NoPanic.bind (renewBase_noPanic (H.imp id (·.2.1))) fun ⟨b1, b2⟩ hb => ?_
+  obtain ⟨rfl, rfl⟩ := renewBase_ok hb
+  refine NoPanic.bind (validateRenewal3_noPanic hr (H.imp id (fun h => ⟨h.2.2.1, h.2.2.2⟩))) fun ⟨a, b⟩ _ => ?_
+  exact NoPanic.pure _
+
+/-- **C12 no_panic, repaired variant** (`_partial`: the host's own revision has a renter output) -/
+theorem rpcRenew2_no_panic_fixed_partial (rh expUH h : Nat) (e r : Rev) (fv : List Nat) (st : Settings)
+    (he : 0 < e.valid.length) : NoPanic (rpcRenew2 true rh e r fv expUH h st) := rpcRenew2_noPanic he (Or.inl rfl)
+/-- **C12 no_panic, repaired variant**, all inputs (payouts are 128-bit values) -/
+theorem rpcRenew3_no_panic_fixed (rh expUH h : Nat) (e k r : Rev) (st : Settings) (hr : ∀ o ∈ r.valid, o.val < C128) :
+    NoPanic (rpcRenew3 true rh e k r expUH h st) := rpcRenew3_noPanic hr (Or.inl rfl)
+
+/-- **C12 no_panic, current tree, partial**: no overflow in the base cost arithmetic, well-shaped existing revision -/
+theorem rpcRenew2_no_panic_partial {rh expUH h : Nat} {e r : Rev} {fv : List Nat} {st : Settings}
+    (he : 2 ≤ e.valid.length) (hb : BaseSafe st.contractPrice st.storagePrice st.collateral e r)
+    (hs : st.contractPrice + baseCost st.storagePrice e r + baseCost st.collateral e r < C128) :
+    NoPanic (rpcRenew2 false rh e r fv expUH h st) := rpcRenew2_noPanic (by omega) (Or.inr ⟨he, hb, hs⟩)
+theorem rpcRenew3_no_panic_partial {rh expUH h : Nat} {e k r : Rev} {st : Settings}
+    (hr : ∀ o ∈ r.valid, o.val < C128) (he : 2 ≤ e.valid.length)
+    (hb : BaseSafe st.renewCost st.storagePrice st.collateral e r)
+    (hs : st.renewCost + baseCost st.storagePrice e r + baseCost st.collateral e r < C128)
+    (hp : st.contractPrice + (st.renewCost + baseCost st.storagePrice e r) < C128) :
+    NoPanic (rpcRenew3 false rh e k r expUH h st) := rpcRenew3_noPanic hr (Or.inr ⟨he, hb, hs, hp⟩)
+
+/-! witnesses: a remote peer crashes the CURRENT handlers before validation rejects its input -/
+
+def exClearing : Rev :=
+  { exExisting with revNo := maxRev, filesize := 0, root := 0, missed := [⟨1, 5000⟩, ⟨2, 700⟩] }
+
+/-- honest existing contract; the renter claims `Filesize = 2^64−1` and a window end 2^64−1:
+`StoragePrice.Mul64(Filesize).Mul64(extension)` overflows before `validateContractRenewal` would have
+rejected the wrong file size (corpus/revision/c12_witnesses.trace) -/
+theorem rpcRenew2_panics_base_overflow :
+    rpcRenew2 false U64 exExisting { exRenewal with filesize := U64 - 1, wEnd := U64 - 1 } [4999, 701] 10 1000 exSettings
+      = .panic .baseStorageMul2 := by decide +kernel
+theorem rpcRenew3_panics_base_overflow :
+    rpcRenew3 false U64 exExisting exClearing
+      { exRenewal with filesize := U64 - 1, wEnd := U64 - 1 } 10 1000 exSettings = .panic .baseStorageMul2 := by
+  decide +kernel
+/-- after the repair both are plain rejections -/
+example : rpcRenew2 true U64 exExisting { exRenewal with filesize := U64 - 1, wEnd := U64 - 1 } [4999, 701] 10 1000 exSettings
+    = .reject .costOverflow := by decide +kernel
+
+/-- an accepted RHP2 renewal and what is recorded for it -/
+example : rpcRenew2 false U64 exExisting exRenewal [4999, 701] 10 1000 { exSettings with maxCollateral := 2000000 }
+    = .ok { locked := 1001528, rpcRevenue := 200, storageRevenue := 2998272, risked := 0, clearingRPC := 1 } := by
+  decide +kernel
 
 end Hostd.Revision
